@@ -489,4 +489,57 @@ def hintChans (target : Nat) : List HopHint → List Chan
 def routeHintsToChans (target : Nat) (hints : List (List HopHint)) : List Chan :=
   hints.flatMap (hintChans target)
 
+/-! ## Blinded payment tails (`BlindedPayment.toRouteHints`, routing/blinding.go) -/
+
+/-- the aggregate relay parameters of a blinded path (`BlindedPayment`):
+    `HtlcMinimum`, `HtlcMaximum`, `BaseFee`, `ProportionalFeeRate`,
+    `CltvExpiryDelta` (includes the receiver's final delta). -/
+structure BlindedAgg where
+  min : Nat
+  max : Nat
+  base : Nat
+  rate : Nat
+  delta : Nat
+deriving Repr, Inhabited
+
+def zeroPolicy : Policy := ⟨0, 0, false, 0, 0, 0, false, 0, 0⟩
+
+/-- hints between consecutive blinded hops: no fee, no delta (the relay
+    parameters are in the encrypted blobs). -/
+def zeroChans : Nat → List Nat → List Chan
+  | id, a :: b :: rest => ⟨id, a, b, fakeHopHintCap, some zeroPolicy, none⟩ :: zeroChans (id + 1) (b :: rest)
+  | _, _ => []
+
+/-- A blinded path as a hint chain over `nodes = [introduction node, blinded
+    hop 1, …]` (channel ids `id, id+1, …`): the edge out of the introduction
+    node carries the AGGREGATE policy of the whole blinded portion, including
+    its minimum and maximum HTLC; `hasMax` is the `HasMaxHTLC` flag of that
+    edge's policy. -/
+def blindedChans (id : Nat) (hasMax : Bool) (agg : BlindedAgg) : List Nat → List Chan
+  | a :: b :: rest =>
+    ⟨id, a, b, fakeHopHintCap,
+      some ⟨agg.min, agg.max, hasMax, agg.base, agg.rate, agg.delta, false, 0, 0⟩, none⟩ ::
+      zeroChans (id + 1) (b :: rest)
+  | _ => []
+
+/-- `newRoute`'s second pass for blinded payments: from the hop that arrives at
+    the introduction node on, every hop except the final one carries zero
+    amount / time lock in its payload (the values are in the encrypted data). -/
+def blindHops (intro : Nat) : Bool → List Hop → List Hop
+  | _, [] => []
+  | _, [h] => [h]
+  | inB, h :: h' :: rest =>
+    let inB' := inB || h.to == intro
+    (if inB' then { h with amt := 0, tl := 0 } else h) :: blindHops intro inB' (h' :: rest)
+
+/-- What the payloads of the blinded portion stand for: zero fee / zero delta
+    inside, so every hop from the introduction node on forwards the final
+    amount with the final time lock. -/
+def unblindHops (intro : Nat) (fin : Hop) : Bool → List Hop → List Hop
+  | _, [] => []
+  | _, [h] => [h]
+  | inB, h :: h' :: rest =>
+    let inB' := inB || h.to == intro
+    (if inB' then { h with amt := fin.amt, tl := fin.tl } else h) :: unblindHops intro fin inB' (h' :: rest)
+
 end LndModel.C19
